@@ -1,1 +1,240 @@
-// harnesses for automerge/src/clock.rs
+// G-CLOCK: vector clocks (child module of automerge::clock).
+use super::*;
+
+const N: usize = 3;
+
+fn any_clock() -> Clock {
+    let a: [u32; N] = kani::any();
+    Clock(a.to_vec())
+}
+
+fn any_seq_entry() -> Option<NonZeroU32> {
+    NonZeroU32::new(kani::any())
+}
+
+fn any_seqclock() -> SeqClock {
+    SeqClock(vec![any_seq_entry(), any_seq_entry(), any_seq_entry()])
+}
+
+fn as_u32(x: Option<NonZeroU32>) -> u32 {
+    match x {
+        Some(v) => v.get(),
+        None => 0,
+    }
+}
+
+fn any_id_in_range() -> OpId {
+    let actor: usize = kani::any();
+    kani::assume(actor < N);
+    let counter: u32 = kani::any();
+    OpId::new(counter as u64, actor)
+}
+
+/// The visibility predicate of every historical read: covered iff the op's counter is at most
+/// the clock entry of its actor (3 actors, all u32 entries, all ids over those actors).
+#[kani::proof]
+#[kani::unwind(5)]
+fn clock_covers_is_counter_le_entry() {
+    let c = any_clock();
+    let id = any_id_in_range();
+    let want = id.counter() <= c.0[id.actor()] as u64;
+    assert_eq!(c.covers(&id), want);
+    // monotone: raising an entry never hides an op
+    let mut c2 = c.clone();
+    let k: usize = kani::any();
+    kani::assume(k < N);
+    let bump: u32 = kani::any();
+    kani::assume(bump >= c2.0[k]);
+    c2.0[k] = bump;
+    if c.covers(&id) {
+        assert!(c2.covers(&id));
+    }
+    kani::cover!(want && id.counter() == c.0[id.actor()] as u64);
+    kani::cover!(!want);
+    std::mem::forget(c);
+    std::mem::forget(c2);
+}
+
+/// isolate(actor) makes every op of that actor covered and leaves the other actors' view alone.
+#[kani::proof]
+#[kani::unwind(5)]
+fn clock_isolate() {
+    let mut c = any_clock();
+    let before = [c.0[0], c.0[1], c.0[2]];
+    let a: usize = kani::any();
+    kani::assume(a < N);
+    c.isolate(a);
+    let id = any_id_in_range();
+    if id.actor() == a {
+        assert!(c.covers(&id));
+    } else {
+        assert_eq!(c.covers(&id), id.counter() <= before[id.actor()] as u64);
+    }
+    kani::cover!(id.actor() == a && id.counter() == u32::MAX as u64);
+    kani::cover!(id.actor() != a);
+    std::mem::forget(c);
+}
+
+/// ClockRange: Diff(before, after) reports visible_before by `before` and visible_after by
+/// `after`; Current(None) sees everything and predates nothing; Current(Some(c)) is a read at c.
+#[kani::proof]
+#[kani::unwind(14)] // Vec<u32> == is a 12-byte memcmp
+fn clock_range_visibility() {
+    let b = any_clock();
+    let a = any_clock();
+    let id = any_id_in_range();
+    let vb = id.counter() <= b.0[id.actor()] as u64;
+    let va = id.counter() <= a.0[id.actor()] as u64;
+    let d = ClockRange::Diff(b.clone(), a.clone());
+    assert_eq!(d.visible_before(&id), vb);
+    assert_eq!(d.predates(&id), vb);
+    assert_eq!(d.visible_after(&id), va);
+    assert!(d.after() == Some(&a));
+    let cur = ClockRange::Current(Some(a.clone()));
+    assert_eq!(cur.visible_after(&id), va);
+    assert!(!cur.visible_before(&id));
+    let now = ClockRange::current(None);
+    assert!(now.visible_after(&id));
+    assert!(!now.visible_before(&id));
+    assert!(now.after().is_none());
+    assert!(ClockRange::default() == ClockRange::Current(None));
+    kani::cover!(vb && !va);
+    kani::cover!(!vb && va);
+    std::mem::forget((d, cur, now, a, b));
+}
+
+/// SeqClock::include is "raise this actor's entry to at least data": the entry becomes
+/// max(old, data), other entries are untouched, and false means nothing changed.
+#[kani::proof]
+#[kani::unwind(5)]
+fn seqclock_include_is_max() {
+    let mut c = any_seqclock();
+    let old = [as_u32(c.0[0]), as_u32(c.0[1]), as_u32(c.0[2])];
+    let a: usize = kani::any();
+    kani::assume(a < N);
+    let data: Option<u32> = kani::any();
+    let changed = c.include(a, data);
+    let want = std::cmp::max(old[a], data.unwrap_or(0));
+    assert_eq!(as_u32(c.0[a]), want);
+    assert_eq!(as_u32(c.get_for_actor(&a)), want);
+    let mut k = 0;
+    while k < N {
+        if k != a {
+            assert_eq!(as_u32(c.0[k]), old[k]);
+        }
+        k += 1;
+    }
+    if !changed {
+        assert_eq!(want, old[a]);
+    }
+    if want != old[a] {
+        assert!(changed);
+    }
+    assert!(c.get_for_actor(&N).is_none());
+    kani::cover!(changed && old[a] > 0);
+    kani::cover!(!changed && data.is_some());
+    std::mem::forget(c);
+}
+
+/// SeqClock::merge is the pointwise maximum (idempotent, commutative, an upper bound of both),
+/// and covers is the pointwise order with None as bottom.
+#[kani::proof]
+#[kani::unwind(14)] // Vec<u32> == is a 12-byte memcmp
+fn seqclock_merge_and_covers() {
+    let a = any_seqclock();
+    let b = any_seqclock();
+    let mut ab = a.clone();
+    SeqClock::merge(&mut ab, &b);
+    let mut ba = b.clone();
+    SeqClock::merge(&mut ba, &a);
+    let mut all_ge = true;
+    let mut k = 0;
+    while k < N {
+        let (x, y) = (as_u32(a.0[k]), as_u32(b.0[k]));
+        assert_eq!(as_u32(ab.0[k]), std::cmp::max(x, y));
+        assert_eq!(as_u32(ba.0[k]), as_u32(ab.0[k]));
+        if x < y {
+            all_ge = false;
+        }
+        k += 1;
+    }
+    assert_eq!(a.covers(&b), all_ge);
+    assert!(ab.covers(&a));
+    assert!(ab.covers(&b));
+    let mut again = ab.clone();
+    SeqClock::merge(&mut again, &b);
+    assert!(again == ab);
+    kani::cover!(all_ge && as_u32(b.0[0]) > 0);
+    kani::cover!(!all_ge && !b.covers(&a));
+    std::mem::forget((a, b, ab, ba, again));
+}
+
+/// Building a clock by inclusion does not depend on the order of the inclusions (3 inclusions,
+/// two different orders), and equals the merge of the clocks of the parts.
+#[kani::proof]
+#[kani::unwind(14)] // Vec<u32> == is a 12-byte memcmp
+fn seqclock_order_independent() {
+    let acts: [usize; 3] = kani::any();
+    kani::assume(acts[0] < N && acts[1] < N && acts[2] < N);
+    let seqs: [Option<u32>; 3] = kani::any();
+    let mut c1 = SeqClock::new(N);
+    c1.include(acts[0], seqs[0]);
+    c1.include(acts[1], seqs[1]);
+    c1.include(acts[2], seqs[2]);
+    let mut c2 = SeqClock::new(N);
+    c2.include(acts[2], seqs[2]);
+    c2.include(acts[0], seqs[0]);
+    c2.include(acts[1], seqs[1]);
+    assert!(c1 == c2);
+    // merge of partial clocks = clock of the union
+    let mut p = SeqClock::new(N);
+    p.include(acts[0], seqs[0]);
+    let mut q = SeqClock::new(N);
+    q.include(acts[1], seqs[1]);
+    q.include(acts[2], seqs[2]);
+    SeqClock::merge(&mut p, &q);
+    assert!(p == c1);
+    kani::cover!(acts[0] == acts[1] && seqs[0] > seqs[1] && seqs[1].is_some());
+    kani::cover!(acts[0] != acts[1] && acts[1] != acts[2] && acts[0] != acts[2]);
+    std::mem::forget((c1, c2, p, q));
+}
+
+/// Actor-table renumbering of a SeqClock keeps every other actor's entry.
+#[kani::proof]
+#[kani::unwind(6)]
+fn seqclock_rewrite_with_new_actor() {
+    let mut c = any_seqclock();
+    let old = [c.0[0], c.0[1], c.0[2]];
+    let i: usize = kani::any();
+    kani::assume(i <= N);
+    c.rewrite_with_new_actor(i);
+    assert_eq!(c.0.len(), N + 1);
+    assert!(c.0[i].is_none());
+    let mut k = 0;
+    while k < N {
+        let nk = if k >= i { k + 1 } else { k };
+        assert!(c.0[nk] == old[k]);
+        k += 1;
+    }
+    c.remove_actor(i);
+    assert!(c.0.len() == N && c.0[0] == old[0] && c.0[1] == old[1] && c.0[2] == old[2]);
+    kani::cover!(i == 0);
+    kani::cover!(i == N);
+    std::mem::forget(c);
+}
+
+/// Clock::from_iter maps a missing entry to 0 (= covers nothing of that actor but the root).
+#[kani::proof]
+#[kani::unwind(5)]
+fn clock_from_iter() {
+    let e: [Option<u32>; 3] = kani::any();
+    let c: Clock = e.iter().copied().collect();
+    assert_eq!(c.0.len(), 3);
+    let mut k = 0;
+    while k < 3 {
+        assert_eq!(c.0[k], e[k].unwrap_or(0));
+        k += 1;
+    }
+    kani::cover!(e[0].is_none() && e[1].is_some());
+    std::mem::forget(c);
+}
